@@ -307,8 +307,46 @@ theorem endsDotDot_of_noDotDot {s : Str} (h : noDotDot s = true) : endsDotDot s 
     have : x ≠ dotdot := fun e => not_mem_of_noDotDot h (e ▸ hx)
     simp [this]
 
-theorem dirOnly_of_noDotDot {s : Str} (h : noDotDot s = true) : dirOnly s = trailingSlash s := by
-  simp [dirOnly, endsDotDot_of_noDotDot h]
+theorem noDotDot_of_plain {s : Str} (h : plain s = true) : noDotDot s = true := by
+  unfold plain at h; simp only [Bool.and_eq_true] at h; exact h.1
+
+theorem endsDot_of_plain {s : Str} (h : plain s = true) : endsDot s = false := by
+  unfold plain at h; simp only [Bool.and_eq_true] at h; simpa using h.2
+
+theorem lastDots_of {s : Str} (hnd : noDotDot s = true) (hdot : endsDot s = false) : lastDots s = false := by
+  simp [lastDots, hdot, endsDotDot_of_noDotDot hnd]
+
+theorem lastDots_of_plain {s : Str} (h : plain s = true) : lastDots s = false :=
+  lastDots_of (noDotDot_of_plain h) (endsDot_of_plain h)
+
+theorem dirOnly_of {s : Str} (hnd : noDotDot s = true) (hdot : endsDot s = false) : dirOnly s = trailingSlash s := by
+  simp [dirOnly, lastDots_of hnd hdot]
+
+theorem dirOnly_of_plain {s : Str} (h : plain s = true) : dirOnly s = trailingSlash s :=
+  dirOnly_of (noDotDot_of_plain h) (endsDot_of_plain h)
+
+theorem lastMustExist_of_plain {s : Str} (h : plain s = true) : lastMustExist s = false := by
+  simp [lastMustExist, endsDot_of_plain h]
+
+theorem noDotDot_of_lexicalOK {s : Str} (h : lexicalOK s = true) : noDotDot s = true := by
+  unfold lexicalOK at h; simp only [Bool.and_eq_true] at h; exact h.1
+
+/-- a string on which the model is the lexical one has no `..` and no final `.`, or has no name in it -/
+theorem lexicalOK_cases {s : Str} (h : lexicalOK s = true) :
+    (noDotDot s = true ∧ endsDot s = false) ∨ (noDotDot s = true ∧ components s = []) := by
+  unfold lexicalOK at h
+  simp only [Bool.and_eq_true, Bool.or_eq_true, Bool.not_eq_eq_eq_not, Bool.not_true, beq_iff_eq] at h
+  rcases h.2 with h2 | h2
+  · exact Or.inl ⟨h.1, h2⟩
+  · exact Or.inr ⟨h.1, h2⟩
+
+theorem lexicalOK_of_plain {s : Str} (h : plain s = true) : lexicalOK s = true := by
+  simp [lexicalOK, noDotDot_of_plain h, endsDot_of_plain h]
+
+theorem lastMustExist_of_lexicalOK {s : Str} (h : lexicalOK s = true) : lastMustExist s = false := by
+  rcases lexicalOK_cases h with ⟨_, h2⟩ | ⟨_, h2⟩
+  · simp [lastMustExist, h2]
+  · simp [lastMustExist, h2]
 
 theorem resolveFrom_append (t : Tree) (cur : Path) (a b : List Str) :
     resolveFrom t cur (a ++ b) = (resolveFrom t cur a).bind fun q => resolveFrom t q b := by
@@ -409,6 +447,37 @@ theorem components_upFrom (d x : Str) : components (upFrom d x) = components d +
   unfold upFrom
   rw [components_append_slash, components_append_slash]
   rfl
+
+/-- the non-empty components as written (`.` included) -/
+def rawComponents (s : Str) : List Str := (splitSlash s).filter (fun c => c != [])
+
+theorem endsDot_eq (s : Str) : endsDot s = ((rawComponents s).getLast? == some ['.']) := rfl
+
+theorem rawComponents_append_slash (a b : Str) :
+    rawComponents (a ++ '/' :: b) = rawComponents a ++ rawComponents b := by
+  unfold rawComponents
+  rw [splitSlash_append_slash, List.filter_append]
+
+theorem rawComponents_ne_nil_of_components {x : Str} (h : components x ≠ []) : rawComponents x ≠ [] := by
+  intro e
+  apply h
+  unfold rawComponents at e
+  unfold components
+  rw [List.filter_eq_nil_iff] at e ⊢
+  intro c hc
+  have := e c hc
+  simp_all
+
+theorem endsDot_append_slash (a b : Str) (hb : rawComponents b ≠ []) : endsDot (a ++ '/' :: b) = endsDot b := by
+  rw [endsDot_eq, endsDot_eq, rawComponents_append_slash, List.getLast?_append]
+  cases hl : (rawComponents b).getLast? with
+  | none => exact absurd (List.getLast?_eq_none_iff.1 hl) hb
+  | some c => rfl
+
+theorem endsDot_upFrom (d x : Str) (hx : components x ≠ []) : endsDot (upFrom d x) = endsDot x := by
+  have hr := rawComponents_ne_nil_of_components hx
+  unfold upFrom
+  rw [endsDot_append_slash _ _ (by rw [rawComponents_append_slash]; simp [hr]), endsDot_append_slash _ _ hr]
 
 /-! ## `mkdirVisits` -/
 
@@ -557,61 +626,87 @@ def dirRead (t : Tree) (s : Str) : Option (List Str) :=
 
 end Lexical
 
-/-! ## without `..` the model is the lexical one -/
+/-! ## on `lexicalOK` strings the model is the lexical one
+
+`lexicalOK s`: no `..` component, and a last component `.` only when the string has no name in it at all.
+(For the other strings the two differ: `Lexical` reads `d/..` as a name and `g/.` as `g`.) -/
 
 section
-variable (t : Tree) (s : Str) (h : noDotDot s = true)
+variable (t : Tree) (s : Str) (h : lexicalOK s = true)
 include h
 
 theorem existsS_eq_lexical : existsS t s = Lexical.existsS t s := by
-  simp [existsS, Lexical.existsS, existsAt, resolve_eq_components t s h, dirOnly_of_noDotDot h]
+  rcases lexicalOK_cases h with ⟨hnd, hdot⟩ | ⟨hnd, hc⟩
+  · simp [existsS, Lexical.existsS, existsAt, resolve_eq_components t s hnd, dirOnly_of hnd hdot]
+  · simp [existsS, Lexical.existsS, existsAt, resolve_eq_components t s hnd, hc, isDir_nil, pathExists, find?_nil]
 theorem isFileS_eq_lexical : isFileS t s = Lexical.isFileS t s := by
-  simp [isFileS, Lexical.isFileS, isFileAt, resolve_eq_components t s h, dirOnly_of_noDotDot h]
+  rcases lexicalOK_cases h with ⟨hnd, hdot⟩ | ⟨hnd, hc⟩
+  · simp [isFileS, Lexical.isFileS, isFileAt, resolve_eq_components t s hnd, dirOnly_of hnd hdot]
+  · simp [isFileS, Lexical.isFileS, isFileAt, resolve_eq_components t s hnd, hc, isFile, find?_nil]
 theorem isDirS_eq_lexical : isDirS t s = Lexical.isDirS t s := by
-  simp [isDirS, Lexical.isDirS, isDirAt, resolve_eq_components t s h]
+  simp [isDirS, Lexical.isDirS, isDirAt, resolve_eq_components t s (noDotDot_of_lexicalOK h)]
 theorem fileCreate_eq_lexical : fileCreate t s = Lexical.fileCreate t s := by
-  simp [fileCreate, Lexical.fileCreate, fileCreateAt, resolve_eq_components t s h, dirOnly_of_noDotDot h]
+  rcases lexicalOK_cases h with ⟨hnd, hdot⟩ | ⟨hnd, hc⟩
+  · simp [fileCreate, Lexical.fileCreate, fileCreateAt, resolve_eq_components t s hnd, dirOnly_of hnd hdot]
+  · simp [fileCreate, Lexical.fileCreate, fileCreateAt, resolve_eq_components t s hnd, hc]
 theorem fileRemove_eq_lexical : fileRemove t s = Lexical.fileRemove t s := by
-  simp [fileRemove, Lexical.fileRemove, fileRemoveAt, resolve_eq_components t s h, dirOnly_of_noDotDot h]
+  rcases lexicalOK_cases h with ⟨hnd, hdot⟩ | ⟨hnd, hc⟩
+  · simp [fileRemove, Lexical.fileRemove, fileRemoveAt, resolve_eq_components t s hnd, dirOnly_of hnd hdot]
+  · simp [fileRemove, Lexical.fileRemove, fileRemoveAt, resolve_eq_components t s hnd, hc, isFile, find?_nil]
 theorem fileRead_eq_lexical : fileRead t s = Lexical.fileRead t s := by
-  simp [fileRead, Lexical.fileRead, fileReadAt, resolve_eq_components t s h, dirOnly_of_noDotDot h]
-  split
-  · rfl
-  · cases find? t (components s) with
-    | none => rfl
-    | some n => cases n <;> rfl
+  rcases lexicalOK_cases h with ⟨hnd, hdot⟩ | ⟨hnd, hc⟩
+  · simp [fileRead, Lexical.fileRead, fileReadAt, resolve_eq_components t s hnd, dirOnly_of hnd hdot]
+    split
+    · rfl
+    · cases find? t (components s) with
+      | none => rfl
+      | some n => cases n <;> rfl
+  · simp [fileRead, Lexical.fileRead, fileReadAt, resolve_eq_components t s hnd, hc, find?_nil]
 theorem fileAppend_eq_lexical (text : Str) : fileAppend t s text = Lexical.fileAppend t s text := by
-  simp [fileAppend, Lexical.fileAppend, fileAppendAt, resolve_eq_components t s h, dirOnly_of_noDotDot h]
-  split
-  · rfl
-  · cases find? t (components s) with
-    | none => rfl
-    | some n => cases n <;> rfl
+  rcases lexicalOK_cases h with ⟨hnd, hdot⟩ | ⟨hnd, hc⟩
+  · simp [fileAppend, Lexical.fileAppend, fileAppendAt, resolve_eq_components t s hnd, dirOnly_of hnd hdot]
+    split
+    · rfl
+    · cases find? t (components s) with
+      | none => rfl
+      | some n => cases n <;> rfl
+  · simp [fileAppend, Lexical.fileAppend, fileAppendAt, resolve_eq_components t s hnd, hc, find?_nil]
 theorem fileOverwrite_eq_lexical (text : Str) : fileOverwrite t s text = Lexical.fileOverwrite t s text := by
-  simp [fileOverwrite, Lexical.fileOverwrite, fileOverwriteAt, resolve_eq_components t s h, dirOnly_of_noDotDot h]
-  split
-  · rfl
-  · cases find? t (components s) with
-    | none => rfl
-    | some n => cases n <;> rfl
+  rcases lexicalOK_cases h with ⟨hnd, hdot⟩ | ⟨hnd, hc⟩
+  · simp [fileOverwrite, Lexical.fileOverwrite, fileOverwriteAt, resolve_eq_components t s hnd, dirOnly_of hnd hdot]
+    split
+    · rfl
+    · cases find? t (components s) with
+      | none => rfl
+      | some n => cases n <;> rfl
+  · simp [fileOverwrite, Lexical.fileOverwrite, fileOverwriteAt, resolve_eq_components t s hnd, hc, find?_nil]
 theorem dirCreate_eq_lexical : dirCreate t s = Lexical.dirCreate t s := by
-  simp [dirCreate, Lexical.dirCreate, dirCreateAt, resolve_eq_components t s h, endsDotDot_of_noDotDot h]
+  rcases lexicalOK_cases h with ⟨hnd, hdot⟩ | ⟨hnd, hc⟩
+  · simp [dirCreate, Lexical.dirCreate, dirCreateAt, resolve_eq_components t s hnd, lastDots_of hnd hdot]
+  · simp [dirCreate, Lexical.dirCreate, dirCreateAt, resolve_eq_components t s hnd, hc]
 theorem dirRemove_eq_lexical : dirRemove t s = Lexical.dirRemove t s := by
-  simp [dirRemove, Lexical.dirRemove, dirRemoveAt, resolve_eq_components t s h, endsDotDot_of_noDotDot h]
+  rcases lexicalOK_cases h with ⟨hnd, hdot⟩ | ⟨hnd, hc⟩
+  · simp [dirRemove, Lexical.dirRemove, dirRemoveAt, resolve_eq_components t s hnd, lastDots_of hnd hdot]
+  · simp [dirRemove, Lexical.dirRemove, dirRemoveAt, resolve_eq_components t s hnd, hc]
 theorem dirRemoveAll_eq_lexical : dirRemoveAll t s = Lexical.dirRemoveAll t s := by
-  simp only [dirRemoveAll, Lexical.dirRemoveAll, dirRemoveAllAt, resolve_eq_components _ s h,
-    endsDotDot_of_noDotDot h, Bool.or_false]
+  have hnd := noDotDot_of_lexicalOK h
+  simp only [dirRemoveAll, Lexical.dirRemoveAll, dirRemoveAllAt, resolve_eq_components _ s hnd]
   by_cases hs : s = []
   · simp [hs]
   · by_cases hp : components s = []
     · simp [hs, hp, isDir_nil, eraseBelow_nil]
-    · by_cases hd : isDir t (components s) = true <;> simp [hs, hp, hd]
+    · have hdot : endsDot s = false := by
+        rcases lexicalOK_cases h with ⟨_, h2⟩ | ⟨_, h2⟩
+        · exact h2
+        · exact absurd h2 hp
+      by_cases hd : isDir t (components s) = true <;> simp [hs, hp, hd, lastDots_of hnd hdot]
 theorem dirRead_eq_lexical : dirRead t s = Lexical.dirRead t s := by
-  simp [dirRead, Lexical.dirRead, dirReadAt, resolve_eq_components t s h]
+  simp [dirRead, Lexical.dirRead, dirReadAt, resolve_eq_components t s (noDotDot_of_lexicalOK h)]
 
 theorem dirCreateAll_eq_lexical : dirCreateAll t s = Lexical.dirCreateAll t s := by
-  unfold dirCreateAll Lexical.dirCreateAll
-  simp only [mkdirVisits_eq_prefixes s h]
+  have hnd := noDotDot_of_lexicalOK h
+  unfold dirCreateAll dirCreateAllVisits Lexical.dirCreateAll mkdirRun
+  simp only [lastMustExist_of_lexicalOK h, Bool.false_eq_true, ↓reduceIte, mkdirVisits_eq_prefixes s hnd]
   cases hf : List.find? (fun q => isFile t q) (prefixes (components s)) with
   | none =>
     have : (prefixes (components s)).any (fun q => isFile t q) = false := by
